@@ -109,6 +109,26 @@ def stack_guard(body, stack, var, ret_pat, push_var, push_node, rebind, calls):
     firstcall = min(call_pos)
     blocks = if_blocks(body, r"^state\.%s\.contains\(&%s\)$" % (stack, var))
     check_ok = bool(blocks) and blocks[0][2] < firstcall and bool(re.search(ret_pat + r"\s*$", blocks[0][1].strip(), re.S))
+    if check_ok:
+        # the test is a statement of the function body itself (not nested in another branch, not the `else` of
+        # something) and nothing consults the cache of converted definitions before it
+        pos = blocks[0][2]
+        depth = 0
+        i = 0
+        while i < pos:
+            ch = body[i]
+            if ch == '"':
+                i += 1
+                while i < pos and body[i] != '"':
+                    i += 2 if body[i] == '\\' else 1
+            elif ch == '{':
+                depth += 1
+            elif ch == '}':
+                depth -= 1
+            i += 1
+        cpos = first(r"\bcache\s*\.", body)
+        if depth != 0 or re.search(r"else\s*$", body[:pos]) or (cpos is not None and cpos < pos):
+            check_ok = False
     push_pat = r"let\s+mut\s+%s\s*=\s*state\s*\.\s*clone\s*\(\s*\)\s*;\s*%s\s*\.\s*%s\s*\.\s*push\s*\(\s*%s\s*\)\s*;" % (
         push_var, push_var, stack, push_node)
     if rebind:
@@ -188,6 +208,25 @@ def generate(api):
                   r"\(\s*marker_node\s*\)\s*;\s*converter\s*::\s*convert_children\s*\(\s*marker_node\s*,\s*&\s*marker_state\s*,", b, re.S)
     n_calls = len(re.findall(r"convert_children\s*\(", b))
     setg('G_MARKER_PUSH', bool(m) and n_calls == 1, "marker::resolve converts the marker content with the marker pushed on parent_markers")
+
+    # ---------------------------------------------------------------- the in-progress lists start empty at the two roots only
+    import glob as _glob
+    import os as _os
+    import translate as _tr
+    n_defs = n_marks = n_reset = n_lit = 0
+    base = _os.path.join(_tr.REPO, 'crates/usvg/src/parser')
+    for path in sorted(_glob.glob(_os.path.join(base, '**', '*.rs'), recursive=True)):
+        try:
+            src = strip_comments(open(path, encoding='utf-8').read())
+        except OSError:
+            continue
+        n_defs += len(re.findall(r"\bparent_defs\s*:\s*(?!self\b)(?!state\b)[^,}]*?(?:Vec\s*::\s*new|vec\s*!|Default)", src))
+        n_marks += len(re.findall(r"\bparent_markers\s*:\s*(?!self\b)(?!state\b)[^,}]*?(?:Vec\s*::\s*new|vec\s*!|Default)", src))
+        n_reset += len(re.findall(r"\.\s*parent_(?:defs|markers)\s*(?:=[^=]|\.\s*(?:clear|pop|truncate|drain|retain|remove|swap_remove)\s*\()", src))
+        n_lit += len(re.findall(r"(?<![A-Za-z0-9_:])State\s*\{", src)) - len(re.findall(r"\bstruct\s+State\s*\{|\bimpl\s+State\s*\{", src))
+    setg('G_STATE_ROOTS', n_defs == 2 and n_marks == 2 and n_lit == 2 and n_reset == 0,
+         "State literals exist only in convert_doc / resolve_svg_size (empty in-progress lists), and no code resets parent_defs / parent_markers "
+         "(found %d + %d empty initialisations, %d State literals, %d resets)" % (n_defs, n_marks, n_lit, n_reset))
 
     # ---------------------------------------------------------------- HrefIter
     b = fn_body(rd(TREE), 'next', after=r"impl\s*<[^>]*>\s*Iterator\s+for\s+HrefIter") or ''
